@@ -64,6 +64,22 @@ package blockchain
 //@   ensures [poolCredited] *st.gp == old(*st.gp) + st.gas
 //@   ensures [senderCredited] st.state.bal == upd(old(st.state.bal), msgFrom(st.msg), old(st.state.bal)[msgFrom(st.msg)] + st.gas * st.gasPrice.v)
 
+// TransitionDb: one message. If it returns a result, the block pool has lost exactly the gas the
+// result reports as used, that amount is what was bought minus what is left after the refund, and the
+// gas bought covered the intrinsic gas. If it returns an error, nothing was executed: no nonce moved;
+// the pool is either untouched or debited by exactly the gas bought (the caller must undo that).
+//@ func (st *StateTransition) TransitionDb() (res *kvm.ExecutionResult, err error)
+//@   for C09
+//@   requires wfST(st) && st.gas == 0 && st.vm != nil && st.vm.StateDB == st.state && st.vm.BlockContext.BlockHeight != nil && st.value != nil && st.value.v >= 0
+//@   modifies st.gas, st.initialGas, *st.gp, kvm.StateDB.bal, kvm.StateDB.nonce, kvm.StateDB.refund, kvm.StateDB.snapBal, kvm.StateDB.snapNonce, kvm.StateDB.nextSnap
+//@   atcall StateDB.SetNonce requires [messageCallBumpsSenderNonceByOne] a == msgFrom(st.msg) && n == toUint64(st.state.nonce[msgFrom(st.msg)] + 1)
+//@   ensures [poolNetOfUsedGas] err == nil ==> res != nil && *st.gp == old(*st.gp) - res.UsedGas
+//@   ensures [usedGasAccounting] err == nil ==> res.UsedGas == st.initialGas - st.gas && st.initialGas == msgGas(st.msg) && st.gas <= st.initialGas
+//@   ensures [intrinsicGasCovered] err == nil ==> msgGas(st.msg) >= gas
+//@   ensures [intrinsicGasCharged] err == nil ==> 2 * res.UsedGas >= gas     // the refund is at most half of what was used
+//@   ensures [rejectedNeverExecutes] err != nil ==> st.state.nonce == old(st.state.nonce)
+//@   ensures [rejectedPoolAtMostBoughtGas] err != nil ==> *st.gp == old(*st.gp) || *st.gp == old(*st.gp) - msgGas(st.msg)
+
 // ApplyTransaction as seen by the block loop. Derived from TransitionDb: a transaction that is
 // applied debits the pool by exactly the gas it used and adds that to the block's used gas; a
 // rejected one adds nothing to the used gas (the pool may already have been debited by buyGas).
